@@ -51,6 +51,11 @@ def check_exp(ctx: Ctx, c: Dict[str, Any], k_: int = 0) -> None:
         cmp("expv", guarded("expv", lambda: U.expv(v, scale=s, steps=k, align_corners=ac), dtype=dt))
         if s == 1.0:
             cmp("expv", guarded("expv", lambda: U.expv(v, steps=k, align_corners=ac), dtype=dt, default_scale=True), default_scale=True)
+        # every argument given POSITIONALLY in the documented order (flow, scale, steps, sampling, padding, align_corners, inverse)
+        from deepali.core.enum import PaddingMode, Sampling
+
+        cmp("expv[positional]", guarded("expv", lambda: U.expv(v, s, k, Sampling.LINEAR, PaddingMode.BORDER, ac), dtype=dt, form="positional"), form="positional")
+        cmp("expv[positional]", guarded("expv", lambda: U.expv(v, s, k, "linear", "border", ac, False), dtype=dt, form="positional+inverse"), form="positional+inverse")
         # batch of two
         o = guarded("expv", lambda: U.expv(torch.cat([v, v]), scale=s, steps=k, align_corners=ac), dtype=dt, batch=2)
         if o is not None:
@@ -59,6 +64,9 @@ def check_exp(ctx: Ctx, c: Dict[str, Any], k_: int = 0) -> None:
         a = guarded("expv[inverse]", lambda: U.expv(v, scale=s, steps=k, align_corners=ac, inverse=True), dtype=dt)
         b = guarded("expv[-v]", lambda: U.expv(-v, scale=s, steps=k, align_corners=ac), dtype=dt)
         d = guarded("expv[-scale]", lambda: U.expv(v, scale=-s, steps=k, align_corners=ac), dtype=dt)
+        ap = guarded("expv[inverse]", lambda: U.expv(v, s, k, Sampling.LINEAR, PaddingMode.BORDER, ac, True), dtype=dt, form="positional")
+        if ap is not None and a is not None and max_err(ap, a) > tol:
+            bad("expv[inverse]", f"the inverse flag given positionally (7th argument) differs from inverse=True by {max_err(ap, a):.3g}", dtype=dt, what="inverse", form="positional")
         if a is not None and b is not None and d is not None:
             if max_err(a, b) > tol or max_err(a, d) > tol:
                 bad("expv[inverse]", f"inverse=True, the negated field and the negated scale disagree by {max(max_err(a, b), max_err(a, d)):.3g}", dtype=dt, what="inverse")
